@@ -519,3 +519,180 @@ pub fn generate(ctx: &mut Ctx) {
         ctx.case("seg", &format!("seg {} {} {}", show_dict(&d), show_loc(&loc), toks.join(" ")));
     }
 }
+
+// ---------------------------------------------------------------------------------------------
+// tables by execution (`hsverif dump c20`): the second source of `Hs/Gen/Dis.lean`.  gen/dis.py reads the
+// precedence chain and the macro regex from the source text; when the text no longer has the shape it
+// parses, the same parameters are measured here on the real functions: the order of the eight tags by
+// pairwise dominance, the treatment of each tag's value by probing, and the three macro forms by running
+// `dis_macro` on every Unicode scalar value in head, tail and key position.
+// ---------------------------------------------------------------------------------------------
+
+fn echo_macro(pattern: &str) -> String {
+    // every tag is defined and answers with its own name between U+0001/U+0002, every key with its name between U+0003/U+0004
+    dis_macro(
+        pattern,
+        |n| Some(Cow::Owned(Value::make_str(&tag_echo(n)))),
+        |k| Some(Cow::Owned(key_echo(k))),
+    )
+    .into_owned()
+}
+
+/// the answers carry the length of the name, so that a marker character inside a name cannot be mistaken
+fn tag_echo(n: &str) -> String {
+    format!("\u{1}{}:{n}\u{2}", n.chars().count())
+}
+fn key_echo(k: &str) -> String {
+    format!("\u{3}{}:{k}\u{4}", k.chars().count())
+}
+
+fn ranges_of(members: &[u32]) -> String {
+    let mut out: Vec<(u32, u32)> = Vec::new();
+    for &c in members {
+        match out.last_mut() {
+            Some(r) if r.1 + 1 == c => r.1 = c,
+            _ => out.push((c, c)),
+        }
+    }
+    format!("[{}]", out.iter().map(|(a, b)| format!("[{a},{b}]")).collect::<Vec<_>>().join(","))
+}
+
+fn all_scalars() -> impl Iterator<Item = char> {
+    (0u32..=0x10FFFF).filter_map(char::from_u32)
+}
+
+pub fn dump_tables() {
+    let no_loc = LocMap::new();
+    let s = |t: &str| Value::make_str(t);
+    let mut o: Vec<String> = Vec::new();
+    // ---- chain: order by pairwise dominance
+    let mut wins: Vec<(usize, &str)> = Vec::new();
+    for a in DOCUMENTED {
+        let mut w = 0;
+        for b in DOCUMENTED {
+            if a == b {
+                continue;
+            }
+            let mut d = Dict::new();
+            d.insert(a.to_string(), s("A"));
+            d.insert(b.to_string(), s("B"));
+            if run_dis(&d, &no_loc, &None) == "A" {
+                w += 1;
+            }
+        }
+        wins.push((w, a));
+    }
+    wins.sort_by(|x, y| y.0.cmp(&x.0));
+    let total = wins.iter().enumerate().all(|(i, (w, _))| *w == DOCUMENTED.len() - 1 - i);
+    let mut rows = Vec::new();
+    for (_, t) in &wins {
+        let one = |v: Value| {
+            let mut d = Dict::new();
+            d.insert(t.to_string(), v);
+            d
+        };
+        // macro: the Str is a pattern whose `$zq` is substituted from the record
+        let mut dm = one(s("$zq"));
+        dm.insert("zq".into(), s("Q"));
+        let is_macro = run_dis(&dm, &no_loc, &None) == "Q";
+        // key: the Str is looked up in the localisation
+        let mut loc = LocMap::new();
+        loc.insert("kk".into(), "L".into());
+        let is_key = run_dis(&one(s("kk")), &loc, &None) == "L";
+        // ref: a Ref shows its dis, or its id
+        let is_ref = run_dis(&one(Value::make_ref_with_dis("v", "D")), &no_loc, &None) == "D"
+            && run_dis(&one(Value::make_ref("v")), &no_loc, &None) == "v";
+        // plain: a Str shows itself, anything else its display text
+        let plain_ok = run_dis(&one(s("plain $zq")), &no_loc, &None) == "plain $zq" || is_macro;
+        let other_ok = run_dis(&one(Value::make_bool(true)), &no_loc, &None) == Value::make_bool(true).to_string();
+        let code = match (is_macro, is_key, is_ref, plain_ok && other_ok) {
+            (false, false, false, true) => 0,
+            (true, false, false, true) => 1,
+            (false, true, false, true) => 2,
+            (false, false, true, true) => 3,
+            _ => 9,
+        };
+        rows.push(format!("[{},{}]", serde_json::to_string(if total { *t } else { "#not-a-total-order" }).unwrap(), code));
+    }
+    // names that must NOT give a display name, and the default
+    for t in ["Dis", "navname", "disMarco", "dis_macro", "displayName", "description", "title", "label", "mod", "ref", "Name", "ID", "Id"] {
+        let mut d = Dict::new();
+        d.insert(t.to_string(), s("X"));
+        if run_dis(&d, &no_loc, &Some("dflt".into())) != "dflt" || run_dis(&d, &no_loc, &None) != "" {
+            rows.push(format!("[{},9]", serde_json::to_string(&format!("#{t}")).unwrap()));
+        }
+    }
+    o.push(format!("\"chain\":[{}]", rows.join(",")));
+    // ---- macro forms
+    // reference characters: a head and a tail character of the `$name` form
+    let ascii: Vec<char> = (0x21u8..0x7f).map(|b| b as char).collect();
+    let mut href = None;
+    'find: for &hc in &ascii {
+        for &tc in &ascii {
+            let name = format!("{hc}{}", tc.to_string().repeat(8));
+            if echo_macro(&format!("${name}")) == tag_echo(&name) {
+                href = Some((hc, tc));
+                break 'find;
+            }
+        }
+    }
+    let (h0, t0) = href.unwrap_or(('\u{0}', '\u{0}'));
+    let run = t0.to_string().repeat(8);
+    let min_of = |open: &str, close: &str| -> i64 {
+        for n in 0..=8usize {
+            let name = format!("{h0}{}", t0.to_string().repeat(n));
+            if echo_macro(&format!("{open}{name}{close}")) == tag_echo(&name) {
+                return n as i64;
+            }
+        }
+        -1
+    };
+    let classes = |open: &str, close: &str| -> (Vec<u32>, Vec<u32>) {
+        let mut head = Vec::new();
+        let mut tail = Vec::new();
+        for c in all_scalars() {
+            let name = format!("{c}{run}");
+            if echo_macro(&format!("{open}{name}{close}")) == tag_echo(&name) {
+                head.push(c as u32);
+            }
+            let name = format!("{h0}{run}{c}");
+            if echo_macro(&format!("{open}{name}{close}")) == tag_echo(&name) {
+                tail.push(c as u32);
+            }
+        }
+        (head, tail)
+    };
+    let (h1, t1) = classes("$", "");
+    let (h2, t2) = classes("${", "}");
+    o.push(format!("\"head1\":{},\"tail1\":{},\"tailMin1\":{}", ranges_of(&h1), ranges_of(&t1), min_of("$", "")));
+    o.push(format!("\"head2\":{},\"tail2\":{},\"tailMin2\":{}", ranges_of(&h2), ranges_of(&t2), min_of("${", "}")));
+    // `$<key>`: the closing character, the characters a key may contain, the minimum key length
+    let mut stops: Vec<u32> = Vec::new();
+    let mut key_chars_ok = true;
+    for c in all_scalars() {
+        if echo_macro(&format!("$<kk{c}")) == key_echo("kk") {
+            stops.push(c as u32);
+        }
+    }
+    let stop = if stops.len() == 1 { stops[0] } else { 0x110000 };
+    if let Some(sc) = char::from_u32(stop) {
+        for c in all_scalars() {
+            let inside = echo_macro(&format!("$<k{c}k{sc}")) == key_echo(&format!("k{c}k"));
+            if inside == (c == sc) {
+                key_chars_ok = false;
+            }
+        }
+    }
+    let mut key_min: i64 = -1;
+    if let Some(sc) = char::from_u32(stop) {
+        for n in 0..=8usize {
+            let k = "k".repeat(n);
+            if echo_macro(&format!("$<{k}{sc}")) == key_echo(&k) {
+                key_min = n as i64;
+                break;
+            }
+        }
+    }
+    o.push(format!("\"keyStop\":{},\"keyMin\":{}", if key_chars_ok { stop } else { 0x110000 }, key_min));
+    println!("{{{}}}", o.join(",\n"));
+}
